@@ -3,10 +3,12 @@ package main
 import (
 	"bytes"
 	"encoding/binary"
+	"errors"
 	"fmt"
 	"hash/crc32"
 	"math/rand"
 	"net"
+	"strings"
 	"sync"
 	"sync/atomic"
 	"time"
@@ -31,8 +33,10 @@ type scenario struct {
 	Plain     bool   `json:"plain"`     // positive control of the cleartext monitor: no TLS, no SRTP
 	Formats   []int  `json:"formats_per_media"`
 	Packets   int    `json:"packets_per_flow"`
-	Joiners   []int  `json:"joiners_at"` // play: late readers join when flow 0 has written this many packets
-	Tamper    bool   `json:"tamper"`     // receiver-side tap alters a fraction of the protected packets
+	Short     int    `json:"packets_other_flows"` // > 0: only flow 0 is long, the others stop here (every flow still wraps once)
+	Joiners   []int  `json:"joiners_at"`          // play: late readers join when flow 0 has written this many packets
+	Tamper    bool   `json:"tamper"`              // receiver-side tap alters a fraction of the protected packets
+	Cold      bool   `json:"cold"`                // tamper from the very first packet: the first packet of every format gets its SSRC altered
 	Seed      int64  `json:"seed"`
 }
 
@@ -102,10 +106,12 @@ type tamperer struct {
 	nRTP    map[string]int
 	nRTCP   map[string]int
 	passRTP int
+	cold    bool           // alter the SSRC of the first packet of every payload type
+	first   map[uint8]bool // payload types whose first packet was seen
 }
 
 func newTamperer(seed int64) *tamperer {
-	return &tamperer{r: rand.New(rand.NewSource(seed)), rtp: map[tkey]string{}, rtcp: map[uint32]string{}, nRTP: map[string]int{}, nRTCP: map[string]int{}}
+	return &tamperer{r: rand.New(rand.NewSource(seed)), rtp: map[tkey]string{}, rtcp: map[uint32]string{}, nRTP: map[string]int{}, nRTCP: map[string]int{}, first: map[uint8]bool{}}
 }
 
 func (t *tamperer) arm(on bool) {
@@ -143,11 +149,18 @@ func (t *tamperer) packet(isRTCP bool, b []byte) {
 		if len(b) < hl+1+10 {
 			return
 		}
+		k := tkey{b[1] & 0x7F, binary.BigEndian.Uint16(b[2:])}
+		if t.cold && !t.first[k.pt] {
+			t.first[k.pt] = true
+			mode := t.flip(b, 8, 12)
+			t.rtp[k] = "rtp-header-ssrc-of-first-packet-" + mode
+			t.nRTP["rtp-header-ssrc-of-first-packet-"+mode]++
+			return
+		}
 		if t.r.Intn(6) != 0 {
 			t.passRTP++
 			return
 		}
-		k := tkey{b[1] & 0x7F, binary.BigEndian.Uint16(b[2:])}
 		cls := rtpClasses[t.r.Intn(len(rtpClasses))]
 		var mode string
 		switch cls {
@@ -256,6 +269,8 @@ type endpoint struct { // one receiving endpoint
 	pc       *rig.PlayClient
 	decErr   atomic.Int64
 	decFirst atomic.Value
+	decMu    sync.Mutex
+	decKinds map[string]int // message (digits stripped) -> count
 	appMu    sync.Mutex
 	apps     map[uint32][]byte // delivered APP packets: id (SSRC field) -> data
 	appDup   int
@@ -336,6 +351,28 @@ func (e *endpoint) onDecodeError(err error) {
 	if e.decErr.Add(1) == 1 {
 		e.decFirst.Store(err.Error())
 	}
+	k := strings.Map(func(c rune) rune {
+		if c >= '0' && c <= '9' {
+			return -1
+		}
+		return c
+	}, err.Error())
+	e.decMu.Lock()
+	if e.decKinds == nil {
+		e.decKinds = map[string]int{}
+	}
+	e.decKinds[k]++
+	e.decMu.Unlock()
+}
+
+func (e *endpoint) decodeErrorKinds() map[string]int {
+	e.decMu.Lock()
+	defer e.decMu.Unlock()
+	out := map[string]int{}
+	for k, v := range e.decKinds {
+		out[k] = v
+	}
+	return out
 }
 
 func (e *endpoint) onRTCP(p rtcp.Packet) {
@@ -367,17 +404,47 @@ type scenRun struct {
 	rtcpMk  []byte
 	srvDec  atomic.Int64 // decode errors reported by the server
 	srvDec1 atomic.Value
+	srvEP   endpoint // histogram of the server's decode errors
+	clMu    sync.Mutex
+	closes  []string // reasons of the server's connection / session closes
+	tagMu   sync.Mutex
+	connTag map[*gortsplib.ServerConn]string
+	sessTag map[*gortsplib.ServerSession]string
 }
 
 func (sr *scenRun) fail(key, what string, extra map[string]any) {
-	w := map[string]any{"scenario": sr.sc}
+	sr.clMu.Lock()
+	w := map[string]any{"scenario": sr.sc, "server_closes": append([]string(nil), sr.closes...)}
+	sr.clMu.Unlock()
 	for k, v := range extra {
 		w[k] = v
 	}
 	run.Violation(key, fmt.Sprintf("[%s] %s", sr.sc.Name, what), w)
 }
 
-func (sr *scenRun) secureProto() string { return sr.sc.Transport }
+// signalled attributes a write-queue-full error returned to the writing client to the
+// receiving endpoint (a signalled loss, legal for the delivery oracle).
+func (sr *scenRun) signalled(e *endpoint, err error) error {
+	if err != nil && strings.Contains(err.Error(), "queue is full") {
+		e.rd.QueueFull()
+		run.Count("write-queue-full-signals", 1)
+	}
+	return err
+}
+
+func vlibTrunc(s string) string {
+	if len(s) > 40 {
+		return s[:40]
+	}
+	return s
+}
+
+func (sr *scenRun) coldTag() string {
+	if sr.sc.Cold {
+		return "first-packet/"
+	}
+	return ""
+}
 
 // hooks for one side ("server" | "client"); tamperIn: alter what this side receives
 func (sr *scenRun) udpHooks(side string, tamperIn bool) *taps.UDPHooks {
@@ -401,6 +468,7 @@ func (sr *scenRun) streamHooks(side string, tamperIn bool) *taps.StreamHooks {
 
 func (sr *scenRun) clientMutate(ep *endpoint, tamperIn bool, extra func(*gortsplib.Client)) func(*gortsplib.Client) {
 	return func(c *gortsplib.Client) {
+		c.UDPReadBufferSize = 4 << 20
 		c.ListenPacket = taps.ListenPacket(sr.udpHooks("client", tamperIn))
 		sh := sr.streamHooks("client", tamperIn)
 		c.DialContext = taps.DialContext(sh)
@@ -466,13 +534,13 @@ func (sr *scenRun) writeFlow(s *sender, n int, r *rand.Rand, write func(*rtp.Pac
 			_ = writeRTCP(sr.app(r))
 		}
 		if i%32 == 31 {
-			sr.pace(s, 256)
+			sr.pace(s, 192)
 		}
 	}
 }
 
 func (sr *scenRun) pace(s *sender, lag int) {
-	deadline := time.Now().Add(200 * time.Millisecond)
+	deadline := time.Now().Add(time.Second)
 	for {
 		var behind *endpoint
 		for _, e := range sr.activeReaders() {
@@ -491,7 +559,7 @@ func (sr *scenRun) pace(s *sender, lag int) {
 			run.Count("pacing-timeouts", 1)
 			return
 		}
-		time.Sleep(50 * time.Microsecond)
+		time.Sleep(250 * time.Microsecond)
 	}
 }
 
@@ -538,9 +606,11 @@ func descWithBack(formats []int, back bool) *description.Session {
 func runScenario(sc scenario) {
 	evals.Add(1)
 	r := rand.New(rand.NewSource(sc.Seed))
-	sr := &scenRun{sc: sc, clear: newClearMon(), appSent: map[uint32][]byte{}}
+	sr := &scenRun{sc: sc, clear: newClearMon(), appSent: map[uint32][]byte{},
+		connTag: map[*gortsplib.ServerConn]string{}, sessTag: map[*gortsplib.ServerSession]string{}}
 	if sc.Tamper {
 		sr.tam = newTamperer(sc.Seed ^ 0x7A)
+		sr.tam.cold = sc.Cold
 	}
 	reliable := sc.Transport == "tcp"
 	back := sc.Kind == "backchannel"
@@ -557,15 +627,52 @@ func runScenario(sc scenario) {
 	}
 	opts := rig.ServerOpts{
 		UDP: true, Multicast: sc.Transport == "mcast", TLS: !sc.Plain, HandlerSet: "full", NoLog: true, Desc: desc, NoStream: sc.Kind == "record",
+		ReadTimeout: 90 * time.Second, WriteTimeout: 90 * time.Second,
 		WriteQueueSize: 1024, SenderReportPeriod: 200 * time.Millisecond, ReceiverReportPeriod: 200 * time.Millisecond,
 		OnEvent: func(e rig.Event) {
-			if e.Kind == "decode-error" {
+			switch e.Kind {
+			case "request":
+				if e.Tag != "" && e.Conn != nil {
+					sr.tagMu.Lock()
+					sr.connTag[e.Conn] = e.Tag
+					sr.tagMu.Unlock()
+				}
+			case "setup", "play":
+				sr.tagMu.Lock()
+				if t, ok := sr.connTag[e.Conn]; ok && e.Sess != nil {
+					sr.sessTag[e.Sess] = t
+				}
+				sr.tagMu.Unlock()
+			case "stream-write-error":
+				// a full write queue of one reader: a signalled loss, attributed to that reader
+				run.Count("stream-write-errors:"+vlibTrunc(e.Err), 1)
+				if strings.Contains(e.Err, "queue is full") {
+					sr.tagMu.Lock()
+					t := sr.sessTag[e.Sess]
+					sr.tagMu.Unlock()
+					sr.emu.Lock()
+					for _, ep := range sr.eps {
+						if "verif:"+ep.name == t {
+							ep.rd.QueueFull()
+						}
+					}
+					sr.emu.Unlock()
+				}
+			case "decode-error":
 				if sr.srvDec.Add(1) == 1 {
 					sr.srvDec1.Store(e.Err)
 				}
+				sr.srvEP.onDecodeError(errors.New(e.Err))
+			case "conn-close", "session-close":
+				sr.clMu.Lock()
+				if len(sr.closes) < 20 {
+					sr.closes = append(sr.closes, e.Kind+": "+e.Err)
+				}
+				sr.clMu.Unlock()
 			}
 		},
 		Mutate: func(s *gortsplib.Server) {
+			s.UDPReadBufferSize = 4 << 20
 			s.ListenPacket = taps.ListenPacket(sr.udpHooks("server", sc.Kind != "play"))
 			sh := sr.streamHooks("server", sc.Kind != "play")
 			s.Listen = taps.Listen(sh)
@@ -682,7 +789,7 @@ func runScenario(sc scenario) {
 	// --- endpoints
 	newReader := func(i int) *endpoint {
 		ep := &endpoint{name: fmt.Sprintf("%s-r%d", sc.Name, i), apps: map[uint32][]byte{}, keepLog: sc.Tamper}
-		o := rig.ClientOpts{Name: ep.name, Proto: sc.Transport, HeldEvery: 97, ReadTimeout: 20 * time.Minute}
+		o := rig.ClientOpts{Name: ep.name, Proto: sc.Transport, HeldEvery: 97, ReadTimeout: 20 * time.Minute, WriteTimeout: 90 * time.Second, WriteQueueSize: 1024}
 		o.Mutate = sr.clientMutate(ep, sc.Kind == "play", func(c *gortsplib.Client) {
 			c.RequestBackChannels = back
 			if sc.Transport == "mcast" {
@@ -741,7 +848,7 @@ func runScenario(sc scenario) {
 				pm.Profile = headers.TransportProfileSAVP
 			}
 		}
-		pub, err = rig.StartPublisher(ts, pdesc, rig.ClientOpts{Name: "pub", Proto: sc.Transport, Path: "/pub", WriteQueueSize: 1024, Mutate: sr.clientMutate(nil, false, nil)})
+		pub, err = rig.StartPublisher(ts, pdesc, rig.ClientOpts{Name: "pub", Proto: sc.Transport, Path: "/pub", WriteQueueSize: 1024, ReadTimeout: 90 * time.Second, WriteTimeout: 90 * time.Second, Mutate: sr.clientMutate(nil, false, nil)})
 		if err != nil {
 			sr.fail("interop/"+sc.Transport+"/publisher-start-failed", err.Error(), nil)
 			return
@@ -757,7 +864,7 @@ func runScenario(sc scenario) {
 		sr.eps = append(sr.eps, ingest)
 		write = func(s *sender) func(*rtp.Packet) error {
 			m := pub.Desc.Medias[s.f.Media]
-			return func(p *rtp.Packet) error { return pub.C.WritePacketRTP(m, p) }
+			return func(p *rtp.Packet) error { return sr.signalled(ingest, pub.C.WritePacketRTP(m, p)) }
 		}
 		pm0 := pub.Desc.Medias[0]
 		writeRTCP = func(p rtcp.Packet) error { return pub.C.WritePacketRTCP(pm0, p) }
@@ -783,11 +890,11 @@ func runScenario(sc scenario) {
 		sr.emu.Unlock()
 		c := bcReader.pc.C
 		write = func(*sender) func(*rtp.Packet) error {
-			return func(p *rtp.Packet) error { return c.WritePacketRTP(bm, p) }
+			return func(p *rtp.Packet) error { return sr.signalled(ingest, c.WritePacketRTP(bm, p)) }
 		}
 		writeRTCP = func(p rtcp.Packet) error { return c.WritePacketRTCP(bm, p) }
 	}
-	if sr.tam != nil {
+	if sr.tam != nil && sc.Cold {
 		sr.tam.arm(true)
 	}
 
@@ -802,8 +909,34 @@ func runScenario(sc scenario) {
 			if i == 0 {
 				wrtcp = writeRTCP
 			}
-			sr.writeFlow(s, sc.Packets, wr, write(s), wrtcp)
+			n := sc.Packets
+			if i > 0 && sc.Short > 0 && sc.Short < n {
+				n = sc.Short
+			}
+			sr.writeFlow(s, n, wr, write(s), wrtcp)
 		}(i, s)
+	}
+	if sr.tam != nil && !sc.Cold {
+		// warm start: the tap begins to alter packets once every flow has delivered some
+		wg.Add(1)
+		go func() {
+			defer wg.Done()
+			for {
+				ready := true
+				for _, s := range sr.senders {
+					for _, e := range sr.activeReaders() {
+						if v, ok := e.rd.LastSeen(s.f.Media, s.f.PT); !ok || v < 50 {
+							ready = false
+						}
+					}
+				}
+				if ready || int(sr.senders[0].ctrA.Load()) >= sc.Packets/2 {
+					sr.tam.arm(true)
+					return
+				}
+				time.Sleep(time.Millisecond)
+			}
+		}()
 	}
 	if sc.Kind == "play" {
 		// late joiners: after flow 0 has written the given number of packets (i.e. after one or
@@ -844,9 +977,18 @@ func runScenario(sc scenario) {
 		dr := rand.New(rand.NewSource(sc.Seed*17 + int64(i)))
 		for _, e := range sr.drain(s, dr, write(s), drainEps, 1500) {
 			d1, _ := e.decFirst.Load().(string)
-			sr.fail("interop/"+sc.Transport+"/"+sc.Kind+"/receiver-stopped-receiving",
+			key := "interop/" + sc.Transport + "/" + sc.Kind + "/receiver-stopped-receiving"
+			if sc.Tamper {
+				side := "client"
+				if e.pc == nil {
+					side = "server"
+				}
+				key = "tamper/" + sc.Transport + "/" + sr.coldTag() + side + "-receiver-blocked-after-altered-packet"
+			}
+			sr.fail(key,
 				fmt.Sprintf("endpoint %s (joined at packet %d) received none of 1500 sentinel packets of media %d format %d after the load; decode errors so far: %d (first: %s)",
-					e.name, e.rocAt, s.f.Media, s.f.PT, e.decErr.Load()+sr.srvDec.Load(), d1), map[string]any{"endpoint": e.name})
+					e.name, e.rocAt, s.f.Media, s.f.PT, e.decErr.Load()+sr.srvDec.Load(), d1),
+				map[string]any{"endpoint": e.name, "decode_error_kinds_client": e.decodeErrorKinds(), "decode_error_kinds_server": sr.srvEP.decodeErrorKinds()})
 		}
 	}
 	for _, e := range drainEps {
